@@ -253,7 +253,8 @@ def _show_constraint(c) -> str:
 
 
 class _Item:
-    """domain elements: plain truthy objects carrying their index (ints would make 0 falsy: that is C01's F-C01-3)"""
+    """domain elements: plain truthy objects carrying their index (ints would make 0 falsy; a falsy BOUND operand was
+    C01's F-C01-3, repaired since - falsy solutions are exercised separately by the `runf` / `thef` cases)"""
     __slots__ = ("i",)
     def __init__(self, i): self.i = i
 
